@@ -135,4 +135,19 @@ def PNode.opOf : PNode → Option Str
   | .comb op _ _ _ _ _ _ => some op
   | _ => none
 
+def PNode.withMeta (f : Meta → Meta) : PNode → PNode
+  | .leaf t sl sr m p => .leaf t sl sr (f m) p
+  | .comb op sl sr m p l r => .comb op sl sr (f m) p l r
+  | .stmt m fs => .stmt (f m) fs
+  | .pairs m ns => .pairs (f m) ns
+  | .empty => .empty
+
+def PNode.meta : PNode → Meta
+  | .leaf _ _ _ m _ => m
+  | .comb _ _ _ m _ _ _ => m
+  | .stmt m _ => m
+  | .pairs m _ => m
+  | .empty => {}
+
+
 end IGVerif
